@@ -96,8 +96,9 @@ type Contract struct {
 }
 
 type SetDef struct {
-	Ghost string
-	E     Expr
+	Ghost  string
+	E      Expr
+	Before bool // "reset": assigned before the call (and before its precondition is checked)
 }
 
 type LetDef struct {
@@ -727,16 +728,16 @@ func (cs *ContractSet) parse(src, file string, line0 int) (err error) {
 				start := lx.p
 				e := lx.parseExpr()
 				cur.CallAsserts[k] = append(cur.CallAsserts[k], &Clause{E: e, Src: lx.srcOf(start, lx.p), Tags: tags, Line: t.line})
-			case "set":
+			case "set", "reset":
 				g := lx.next().s
 				lx.expect("=")
 				e := lx.parseExpr()
 				if cur.CallSets == nil {
 					cur.CallSets = map[string][]SetDef{}
 				}
-				cur.CallSets[k] = append(cur.CallSets[k], SetDef{g, e})
+				cur.CallSets[k] = append(cur.CallSets[k], SetDef{g, e, kw == "reset"})
 			default:
-				return fmt.Errorf("%s:%d: expected assert or set", file, t.line)
+				return fmt.Errorf("%s:%d: expected assert, set or reset", file, t.line)
 			}
 		case "loop":
 			nt := lx.next()
